@@ -1,16 +1,14 @@
 SPECIFICATION GenSpec
 CONSTANTS
-  NumChunksSet = {0, 1, 2, 5}
-  MaxItemsSet = {3, 4, 5}
-  MaxBytesSet = {3, 4, 7}
-  EvictSet = {0, 1, 2, 4}
+  Configs <- CfgGenQuick
   UsedChunks = 1
   KeyIdx = {1, 2, 3}
   Sizes = {0, 1, 3}
   ImmunizeMax = 2
   KnownDefects = {"C27floor"}
+  WithBad = TRUE
   BothVariants = TRUE
-  Log <- LogAppend
+  Log <- LogAppendSlim
   Depth = 12
 VIEW cvars
 ACTION_CONSTRAINT EmitEdge
